@@ -17,7 +17,8 @@ impl Serialize for TimeStamp {
     where
         S: Serializer,
     {
-        let form = self.0.to_rfc3339_opts(SecondsFormat::Secs, true);
+        // whole seconds print as before; a sub-second part is kept
+        let form = self.0.to_rfc3339_opts(SecondsFormat::AutoSi, true);
         form.serialize(ser)
     }
 }
